@@ -415,7 +415,20 @@ def drive(a, prop, tier, cdir, plain, outdir, need_race, log, t0):
     return rc
 
 
-EXPECTED_PROBES = {}
+EXPECTED_PROBES = {
+    "C01": ["cancel-during-send", "concurrent-reregistration", "history.failed-reregistration"],
+    "C02": ["cancel-during-send"],
+    "C03": ["cancel-during-send", "node.stalled", "node.nested-send"],
+    "C08": ["fs.external-rename", "fs.crashed", "fs.rotated"],
+    "C11": ["gate.expired-group", "gate.flushall-many-groups"],
+    "C12": ["reentry.process", "reentry.close", "reentry.reopen"],
+    "C13": ["channel.room-fast-path", "channel.error", "fs.retry-after-failed-write"],
+    "C14": ["json.unencodable"],
+    "C15": ["fs.model-rotation", "fs.external-rename"],
+    "C16": ["encrypt.rotated"],
+    "C17": ["gate.expired-group", "gate.flushall-many-groups"],
+    "C18": ["ce.signer-failed", "ce.signed"],
+}
 
 
 def evidence(prop, tier, seed, summaries, det, log, cdir, wall, nviol, known_lines):
